@@ -6,10 +6,15 @@ type string = Stdlib.String.t
 open Litcmd
 open Corecmd
 
+(* names carry a role prefix for the analysis model (its jet / builtin tables are keyed by role); the printer and lexer
+   models know spellings only, so for them the same spelling is the same id whatever its role *)
+let roles = ref true
+let rintern (role : string) (s : string) : n = if !roles then intern (role ^ s) else intern s
+
 let rec aty_of (s : Sexp.t) : aty =
   match tag s with
-  | "al", [ n ] -> AAlias (intern ("alias:" ^ atom n))
-  | "bi", [ n ] -> ABuiltin (intern ("builtin:" ^ atom n))
+  | "al", [ n ] -> AAlias (rintern "alias:" (atom n))
+  | "bi", [ n ] -> ABuiltin (rintern "builtin:" (atom n))
   | "E", [ a; b ] -> AEither (aty_of a, aty_of b)
   | "O", [ a ] -> AOption (aty_of a)
   | "B", [] -> ABool0
@@ -31,7 +36,7 @@ let mpat_of (s : Sexp.t) : mpat =
 
 let cname_of (s : Sexp.t) : pcallname =
   match tag s with
-  | "jet", [ n ] -> PJet (intern ("jet:" ^ atom n))
+  | "jet", [ n ] -> PJet (rintern "jet:" (atom n))
   | "ul", [ t ] -> PUnwrapLeft (aty_of t)
   | "ur", [ t ] -> PUnwrapRight (aty_of t)
   | "isnone", [ t ] -> PIsNone (aty_of t)
@@ -40,9 +45,9 @@ let cname_of (s : Sexp.t) : pcallname =
   | "panic", [] -> PPanic
   | "dbg", [] -> PDebug
   | "cast", [ t ] -> PCast (aty_of t)
-  | "custom", [ f ] -> PCustom (intern ("fn:" ^ atom f))
-  | "fold", [ f; k ] -> PFold (intern ("fn:" ^ atom f), nat_of_int (int_of k))
-  | "forwhile", [ f ] -> PForWhile (intern ("fn:" ^ atom f))
+  | "custom", [ f ] -> PCustom (rintern "fn:" (atom f))
+  | "fold", [ f; k ] -> PFold (rintern "fn:" (atom f), nat_of_int (int_of k))
+  | "forwhile", [ f ] -> PForWhile (rintern "fn:" (atom f))
   | _ -> raise (Parse_error "bad call name")
 
 let rec pexpr_of (s : Sexp.t) : pexpr =
@@ -78,9 +83,9 @@ let rec pexpr_of (s : Sexp.t) : pexpr =
 
 let item_of (s : Sexp.t) : pitem =
   match tag s with
-  | "alias", [ n; t ] -> ITypeAlias (intern ("alias:" ^ atom n), aty_of t)
+  | "alias", [ n; t ] -> ITypeAlias (rintern "alias:" (atom n), aty_of t)
   | "fn", [ n; List ps; ret; body ] ->
-    let name = if atom n = "main" then intern "fn:main" else intern ("fn:" ^ atom n) in
+    let name = rintern "fn:" (atom n) in
     let params = List.map (function List [ x; t ] -> (intern (atom x), aty_of t) | _ -> raise (Parse_error "bad param")) ps in
     let r = match tag ret with "some", [ t ] -> Some (aty_of t) | "none", [] -> None | _ -> raise (Parse_error "bad ret") in
     IFunction (name, params, r, pexpr_of body)
@@ -183,6 +188,17 @@ let handle (line : string) : string =
                                 tagged "tracked" (List.map (fun (sp, k) -> List [ Atom (string_of_int (int_of_n sp)); Atom (kind_str k) ]) tracked) ])
      | Err -> "err"
      | Panic -> "panic")
+  | "mparse", [ text; List items ] ->
+    (* C16: the character-level reader (Text/ProgLex.v lexer + token parser) on the text, against the dumped tree *)
+    roles := false;
+    let p = (try List.map item_of items with e -> roles := true; raise e) in
+    roles := true;
+    let ns (x : n) = bytes_of_string (name_of x) in
+    let internb (b : n list) : n = intern (string_of_bytes b) in
+    let names = prog_names_ok ns internb p in
+    (match parse_text internb (bytes_of_string (atom text)) with
+     | Some q -> Printf.sprintf "(parse %s) (names_ok %b)" (if q = erase_program p then "same" else "DIFF") names
+     | None -> Printf.sprintf "(parse none) (names_ok %b)" names)
   | "mprint", [ List items ] ->
     (* C16: the model of the Display state machines of parse.rs on the dumped parse tree *)
     let p = List.map item_of items in
